@@ -61,8 +61,30 @@ def check(proposed, supported, roles):
     return None
 
 
+def check_unrestricted():
+    from pynetdicom.presentation import negotiate_unrestricted
+    for uid in ("1.2.3.4", "1.2.840.10008.5.1.4.1.1.2"):          # private, CT Image Storage
+        for prop in [None] + R.RQ_PROPOSALS[1:]:
+            p = cx(1, uid, [TS[1], TS[0]])
+            roles = {uid: prop} if prop else {}
+            res, replies = negotiate_unrestricted([p], [], dict(roles))
+            c = res[0]
+            want = R.outcome(prop or (None, None), (True, True))[2:]
+            got = (c.as_scu, c.as_scp)
+            if c.result != 0 or c.transfer_syntax != [TS[1]] or got != want:
+                return dict(input={"abstract_syntax": uid, "role_proposal": prop, "mode": "unrestricted storage"},
+                            observed={"result": c.result, "transfer_syntax": [str(t) for t in c.transfer_syntax], "acceptor (as_scu, as_scp)": got},
+                            expected={"result": 0, "transfer_syntax": [TS[1]], "acceptor (as_scu, as_scp)": want})
+    return None
+
+
 def main():
     rec = load() if len(sys.argv) > 1 and sys.argv[1] != "--all" else {"id": "all"}
+    if "negotiate_unrestricted" in rec["id"]:
+        b = check_unrestricted()
+        if b:
+            done(True, **b)
+        done(False, note="unrestricted negotiation agrees with the specification on the replay cases")
     bad = None
     n = 0
     ts_lists = [[TS[0]], [TS[1], TS[0]], [TS[2]], [TS[0], TS[1], TS[2]]]
